@@ -57,6 +57,11 @@ SPEC_MUTANTS = [
      "  /\\ IF GRDone(SrcState(r)) /\\ rd[r].pos > SrcStatSize(r)\n     THEN rd' = [rd EXCEPT ![r].pc = \"closed\"]", ["EndsWhenDone", "temporal"]),
     ("spec_eof_check_uses_file_size", "  /\\ IF GRDone(SrcState(r)) /\\ rd[r].pos >= SrcStatSize(r)\n     THEN rd' = [rd EXCEPT ![r].pc = \"closed\"]",
      "  /\\ IF GRDone(SrcState(r)) /\\ rd[r].pos >= SrcSize(r)\n     THEN rd' = [rd EXCEPT ![r].pc = \"closed\"]", ["NoEarlyEnd", "CloseOnlyWhenFinal"], "Results_alq.cfg"),
+    ("spec_mirror_copies_from_raw_conn", "  /\\ lout' = lout \\o rbuf \\o wire /\\ wire' = <<>> /\\ rbuf' = <<>>", "  /\\ lout' = lout \\o wire /\\ wire' = <<>> /\\ rbuf' = <<>>",
+     ["MirrorPrefix", "NoGapNoRepeat"]),
+    ("spec_complete_not_monitored_at_restart", "  /\\ pcS' = \"connect\" /\\ pcO' = \"create\"\n  /\\ UNCH_R /\\ UNCHANGED <<rd, lExists, lout, aState, aSize, sessS, sessO,",
+     "  /\\ IF IsComplete(aState) THEN pcS' = \"done\" /\\ pcO' = \"done\" ELSE pcS' = \"connect\" /\\ pcO' = \"create\"\n  /\\ UNCH_R /\\ UNCHANGED <<rd, lExists, lout, aState, aSize, sessS, sessO,",
+     ["MirrorDoneIsConverged", "MirrorConverges", "temporal"]),
     ("spec_start_offset_plus_one", "rd' = [rd EXCEPT ![r] = [pc |-> \"wait\", p |-> p, pos |-> p, sent |-> <<>>]]",
      "rd' = [rd EXCEPT ![r] = [pc |-> \"wait\", p |-> p, pos |-> p + 1, sent |-> <<>>]]", ["NoGapNoRepeat"]),
     ("spec_mirror_request_from_zero", "     ELSE IF disk < aSize THEN pcO' = \"connect\" /\\ reqFrom' = disk", "     ELSE IF disk < aSize THEN pcO' = \"connect\" /\\ reqFrom' = 0", ["MirrorPrefix", "NoGapNoRepeat"]),
